@@ -193,8 +193,20 @@ def history_batches(tier, rng, n_cases):
         if rng.random() < 0.2:
             pre.append("enc e restart")
         pos = n + 2
+        if rng.random() < 0.35:
+            # the call just before the batch: SAME size limits, a packet of the batch's first message type but of ANOTHER protocol
+            # version (everything cached from one encode call to the next - frame template, message type - must be rebuilt from the
+            # new batch's packets; seeded change u07B keeps a stale version byte)
+            import copy
+            q = copy.copy(m["pkts"][0])
+            q.ver = (q.ver + rng.randrange(1, 4)) % 256
+            c.ops.insert(n, pline(q, "p%d" % n))
+            pre.append("enc e encode %d %d p%d" % (m["min"], m["max"], n))
+            pos = n + 3
+            c.tags = ("history", "history-other-version")
+        else:
+            c.tags = ("history",)
         c.ops[pos:pos] = pre
-        c.tags = ("history",)
         cases.append(c)
     return cases
 
@@ -374,13 +386,42 @@ def make_batch_pred(prop):
             if n:
                 pairs.append(("k%d" % ci, ops))
                 idx.append(ci)
-        outs = core.run_driver(pairs) if pairs else []
-        for ci, out in zip(idx, outs):
-            verdicts = [l for l in out if l.startswith("chk ")]
-            if any((prop + "=false") in l for l in verdicts):
-                res[ci] = False
-            elif any((prop + "=true") in l for l in verdicts):
-                res[ci] = True
+        import subprocess
+        slow = [0]
+
+        def take(ids, outs):
+            for ci, out in zip(ids, outs):
+                verdicts = [l for l in out if l.startswith("chk ")]
+                if any((prop + "=false") in l for l in verdicts):
+                    res[ci] = False
+                elif any((prop + "=true") in l for l in verdicts):
+                    res[ci] = True
+
+        def ev(ps, ids, timeout):
+            """the Lean predicate on the implementation's frames, in chunks: the evaluator is fast on every output of the model's shape
+            (a whole quick batch takes seconds) but an implementation gone wrong can return output thousands of times more fragmented
+            (e.g. a 64 KiB frame tiled by 4096 empty messages); a timeout must end neither the check nor the search"""
+            if not ps:
+                return
+            if slow[0] >= 8 and len(ps) > 1:
+                return          # enough cases beyond the evaluator: the others stay undecided (the comparison with the model still sees them)
+            try:
+                take(ids, core.run_driver(ps, timeout=30 if len(ps) == 1 else timeout))
+            except subprocess.TimeoutExpired:
+                if len(ps) == 1:
+                    # the predicate could not be decided on this output within the limit; it is reported as failing only together
+                    # with the model / implementation difference the comparison finds on the same case (see the replay's note)
+                    slow[0] += 1
+                    res[ids[0]] = False
+                    cases[ids[0]].meta["pred_timeout"] = True
+                    return
+                mid = len(ps) // 2
+                t2 = max(30, timeout // 2)
+                ev(ps[:mid], ids[:mid], t2)
+                ev(ps[mid:], ids[mid:], t2)
+        CH = 400
+        for k in range(0, len(pairs), CH):
+            ev(pairs[k:k + CH], idx[k:k + CH], 240)
         return res
     return batch
 
